@@ -17,6 +17,7 @@ import (
 
 	tmproto "github.com/tendermint/tendermint/proto/tendermint/types"
 
+	"github.com/cosmos/cosmos-sdk/codec"
 	sdk "github.com/cosmos/cosmos-sdk/types"
 	authtypes "github.com/cosmos/cosmos-sdk/x/auth/types"
 	banktypes "github.com/cosmos/cosmos-sdk/x/bank/types"
@@ -329,3 +330,15 @@ func JSONRequests(s string) []types.CompactRequest {
 	}
 	return out
 }
+
+// LegacyCdc is the amino codec of the legacy query interface.
+func LegacyCdc() *codec.LegacyAmino { return App.LegacyAmino() }
+
+// AminoJSON / FromAminoJSON encode query parameters and decode query results of the legacy interface.
+func AminoJSON(v interface{}) []byte { return App.LegacyAmino().MustMarshalJSON(v) }
+func FromAminoJSON(bz []byte, ptr interface{}) error {
+	return App.LegacyAmino().UnmarshalJSON(bz, ptr)
+}
+
+// SameBytes compares two stored values.
+func SameBytes(a, b []byte) bool { return string(a) == string(b) }
